@@ -650,6 +650,7 @@ static int
 has_traits_setattro(has_traits_object *obj, PyObject *name, PyObject *value)
 {
     trait_object *trait;
+    int rc;
 
     if ((obj->itrait_dict == NULL)
         || ((trait = (trait_object *)dict_getitem(obj->itrait_dict, name))
@@ -661,7 +662,13 @@ has_traits_setattro(has_traits_object *obj, PyObject *name, PyObject *value)
         }
     }
 
-    return trait->setattr(trait, trait, obj, name, value);
+    /* The reference found in the trait dictionaries is borrowed: keep the
+       trait alive while its setter runs (a validator or handler may replace
+       or remove the trait of this very name). */
+    Py_INCREF(trait);
+    rc = trait->setattr(trait, trait, obj, name, value);
+    Py_DECREF(trait);
+    return rc;
 }
 
 /*-----------------------------------------------------------------------------
@@ -864,7 +871,12 @@ has_traits_getattro(has_traits_object *obj, PyObject *name)
              != NULL))
         || ((trait = (trait_object *)dict_getitem(obj->ctrait_dict, name))
             != NULL)) {
-        return trait->getattr(trait, obj, name);
+        /* Borrowed reference: keep the trait alive while its getter runs
+           (a default method may replace or remove the trait). */
+        Py_INCREF(trait);
+        value = trait->getattr(trait, obj, name);
+        Py_DECREF(trait);
+        return value;
     }
 
     /* Try normal Python attribute access, but if it fails with an
@@ -877,7 +889,10 @@ has_traits_getattro(has_traits_object *obj, PyObject *name)
     PyErr_Clear();
 
     if ((trait = get_prefix_trait(obj, name, 0)) != NULL) {
-        return trait->getattr(trait, obj, name);
+        Py_INCREF(trait);
+        value = trait->getattr(trait, obj, name);
+        Py_DECREF(trait);
+        return value;
     }
 
     return NULL;
